@@ -204,12 +204,12 @@ def run_path(pp, solver, tvars, entry, n, decisions, extra_pc=(), nd_shared=None
                 p.f[P['in_ordered_choice']], len(d.f[CD['nodes']].items), d.f[CD['non_skip_len']], m.nd)
     r.loop_key = loop_key
     toks = VecObj([Agg('Token', Sym(t), []) for t in tvars[:n]])
-    spans = VecObj([Agg('Range', None, [2 * i, 2 * i + 1]) for i in range(n)])
+    spans = VecObj([Agg('Range', None, [i, i + 1]) for i in range(n)])
     ctx = Agg('Ctx', None, [toks, spans])
     diags = VecObj(); cell = [diags]
     cst = None
     try:
-        parser = r.call(pp.f_new, ['x ' * n, Ref(cell, 0), ctx])
+        parser = r.call(pp.f_new, ['x' * n, Ref(cell, 0), ctx])
         f_entry = prog.byname['Parser::' + entry]
         cst = r.call(f_entry, [parser, Ref(cell, 0)])
         res.status = 'ok'; res.msg = ''
